@@ -245,3 +245,265 @@ fn rw_expr(e: &Expr, target: usize, g: &mut dyn FnMut(&BlockStmt) -> BlockStmt, 
         other => other.clone(),
     }
 }
+
+// ---------------------------------------------------------------------------------------
+// C10 transformations
+
+/// T1: the whole top level becomes the body of a function that is called at once
+pub fn t1_wrap(prog: &BlockStmt) -> BlockStmt {
+    vec![es(Expr::Function { name: "hoofd".into(), parameters: vec![], body: prog.clone() }), es(calln("hoofd", vec![]))]
+}
+
+/// generic bottom-up expression rewriter; `unit_enter/unit_leave` bracket every function body
+struct Rw<'a> {
+    on_expr: &'a mut dyn FnMut(&Expr, &mut Vec<Stmt>) -> Option<Expr>,
+}
+
+impl<'a> Rw<'a> {
+    fn unit(&mut self, b: &BlockStmt) -> BlockStmt {
+        let mut pending: Vec<Stmt> = Vec::new();
+        let mut body = self.block(b, &mut pending);
+        if !pending.is_empty() {
+            let mut nb = pending;
+            nb.append(&mut body);
+            nb
+        } else {
+            body
+        }
+    }
+    fn block(&mut self, b: &BlockStmt, pending: &mut Vec<Stmt>) -> BlockStmt {
+        b.iter()
+            .map(|s| match s {
+                Stmt::Let(n, e) => Stmt::Let(n.clone(), self.expr(e, pending)),
+                Stmt::Return(e) => Stmt::Return(self.expr(e, pending)),
+                Stmt::Expr(e) => Stmt::Expr(self.expr(e, pending)),
+                Stmt::Block(x) => Stmt::Block(self.block(x, pending)),
+                other => other.clone(),
+            })
+            .collect()
+    }
+    fn expr(&mut self, e: &Expr, pending: &mut Vec<Stmt>) -> Expr {
+        if let Some(r) = (self.on_expr)(e, pending) {
+            return r;
+        }
+        match e {
+            Expr::Infix { left, operator, right } => {
+                let l = self.expr(left, pending);
+                let r = self.expr(right, pending);
+                Expr::Infix { left: Box::new(l), operator: *operator, right: Box::new(r) }
+            }
+            Expr::Prefix { operator, right } => Expr::Prefix { operator: *operator, right: Box::new(self.expr(right, pending)) },
+            Expr::If { condition, consequence, alternative } => {
+                let c = self.expr(condition, pending);
+                let t = self.block(consequence, pending);
+                let a = alternative.as_ref().map(|a| self.block(a, pending));
+                Expr::If { condition: Box::new(c), consequence: t, alternative: a }
+            }
+            Expr::While { condition, body } => {
+                let c = self.expr(condition, pending);
+                let b = self.block(body, pending);
+                Expr::While { condition: Box::new(c), body: b }
+            }
+            Expr::Function { name, parameters, body } => Expr::Function { name: name.clone(), parameters: parameters.clone(), body: self.unit(body) },
+            Expr::Call { left, arguments } => {
+                let args = arguments.iter().map(|a| self.expr(a, pending)).collect();
+                let l = self.expr(left, pending);
+                Expr::Call { left: Box::new(l), arguments: args }
+            }
+            Expr::Assign { left, right } => {
+                let l = match &**left {
+                    Expr::Index { left: a, index } => {
+                        let a2 = self.expr(a, pending);
+                        let i2 = self.expr(index, pending);
+                        Expr::Index { left: Box::new(a2), index: Box::new(i2) }
+                    }
+                    other => other.clone(),
+                };
+                let r = self.expr(right, pending);
+                Expr::Assign { left: Box::new(l), right: Box::new(r) }
+            }
+            Expr::Array { values } => Expr::Array { values: values.iter().map(|v| self.expr(v, pending)).collect() },
+            Expr::Index { left, index } => {
+                let l = self.expr(left, pending);
+                let i = self.expr(index, pending);
+                Expr::Index { left: Box::new(l), index: Box::new(i) }
+            }
+            other => other.clone(),
+        }
+    }
+}
+
+fn int_operand_sites(prog: &BlockStmt) -> usize {
+    let mut n = 0;
+    let mut rw = Rw {
+        on_expr: &mut |e, _| {
+            if let Expr::Infix { left, right, .. } = e {
+                if matches!(**left, Expr::Int { .. }) {
+                    n += 1;
+                }
+                if matches!(**right, Expr::Int { .. }) {
+                    n += 1;
+                }
+            }
+            None
+        },
+    };
+    rw.unit(prog);
+    n
+}
+
+/// T2: the `k`-th integer literal operand becomes a fresh variable declared at the start of the enclosing unit
+pub fn t2_literal_to_variable(prog: &BlockStmt, k: usize, fresh: &str) -> Option<BlockStmt> {
+    if int_operand_sites(prog) == 0 {
+        return None;
+    }
+    let mut seen = 0usize;
+    let mut done = false;
+    let fresh = fresh.to_string();
+    let out = {
+        let mut rw = Rw {
+            on_expr: &mut |e, pending| {
+                if done {
+                    return None;
+                }
+                if let Expr::Infix { left, operator, right } = e {
+                    let mut l = (**left).clone();
+                    let mut r = (**right).clone();
+                    let mut hit = false;
+                    if let Expr::Int { value } = l {
+                        if seen == k {
+                            pending.push(Stmt::Let(fresh.clone(), Expr::Int { value }));
+                            l = Expr::Identifier(fresh.clone());
+                            hit = true;
+                        }
+                        seen += 1;
+                    }
+                    if !hit {
+                        if let Expr::Int { value } = r {
+                            if seen == k {
+                                pending.push(Stmt::Let(fresh.clone(), Expr::Int { value }));
+                                r = Expr::Identifier(fresh.clone());
+                                hit = true;
+                            }
+                            seen += 1;
+                        }
+                    }
+                    if hit {
+                        done = true;
+                        return Some(Expr::Infix { left: Box::new(l), operator: *operator, right: Box::new(r) });
+                    }
+                }
+                None
+            },
+        };
+        rw.unit(prog)
+    };
+    if done {
+        Some(out)
+    } else {
+        None
+    }
+}
+
+fn mirror_op(op: Operator) -> Option<Operator> {
+    Some(match op {
+        Operator::Add | Operator::Multiply | Operator::Eq | Operator::Neq => op,
+        Operator::Lt => Operator::Gt,
+        Operator::Gt => Operator::Lt,
+        Operator::Lte => Operator::Gte,
+        Operator::Gte => Operator::Lte,
+        _ => return None,
+    })
+}
+
+fn is_mirror_site(e: &Expr) -> bool {
+    if let Expr::Infix { left, operator, right } = e {
+        if mirror_op(*operator).is_none() {
+            return false;
+        }
+        return matches!((&**left, &**right), (Expr::Int { .. }, Expr::Identifier(_)) | (Expr::Identifier(_), Expr::Int { .. }));
+    }
+    false
+}
+
+/// T3: the `k`-th `c op x` / `x op c` is mirrored
+pub fn t3_mirror(prog: &BlockStmt, k: usize) -> Option<BlockStmt> {
+    let mut seen = 0usize;
+    let mut done = false;
+    let out = {
+        let mut rw = Rw {
+            on_expr: &mut |e, _| {
+                if done || !is_mirror_site(e) {
+                    return None;
+                }
+                let me = seen;
+                seen += 1;
+                if me != k {
+                    return None;
+                }
+                if let Expr::Infix { left, operator, right } = e {
+                    done = true;
+                    return Some(Expr::Infix { left: right.clone(), operator: mirror_op(*operator).unwrap(), right: left.clone() });
+                }
+                None
+            },
+        };
+        rw.unit(prog)
+    };
+    if done {
+        Some(out)
+    } else {
+        None
+    }
+}
+
+pub fn count_mirror_sites(prog: &BlockStmt) -> usize {
+    let mut n = 0;
+    let mut rw = Rw {
+        on_expr: &mut |e, _| {
+            if is_mirror_site(e) {
+                n += 1;
+            }
+            None
+        },
+    };
+    rw.unit(prog);
+    n
+}
+
+pub fn count_int_operand_sites(prog: &BlockStmt) -> usize {
+    int_operand_sites(prog)
+}
+
+/// literals of the program (for T4)
+pub fn collect_literals(prog: &BlockStmt) -> Vec<Expr> {
+    let mut out: Vec<Expr> = Vec::new();
+    let mut rw = Rw {
+        on_expr: &mut |e, _| {
+            match e {
+                Expr::Int { .. } | Expr::Float { .. } => {
+                    if !out.contains(e) {
+                        out.push(e.clone());
+                    }
+                }
+                Expr::String { value } => {
+                    // U10: a literal that is modified in place must stay unique in the program
+                    if !value.starts_with("uniek") && !out.contains(e) {
+                        out.push(e.clone());
+                    }
+                }
+                _ => {}
+            }
+            None
+        },
+    };
+    rw.unit(prog);
+    out
+}
+
+/// T4: expression statements mentioning literals are prepended (constant-pool indices shift and merge)
+pub fn t4_prepend(prog: &BlockStmt, lits: &[Expr]) -> BlockStmt {
+    let mut out: BlockStmt = lits.iter().map(|l| es(l.clone())).collect();
+    out.extend(prog.iter().cloned());
+    out
+}
